@@ -280,3 +280,10 @@ End Verdicts.
 Definition cfg_star_safe (c : cfg) : bool :=
   match c_inc c with Some pats => star_safe false pats | None => true end
   && match c_exc c with Some pats => star_safe true pats | None => true end.
+
+(* well-formed views: names are non-empty and contain no separator *)
+Fixpoint wf_node (n : node) : bool :=
+  match n with
+  | Node name _ _ kids => negb (is_nil name) && no_sep name && forallb wf_node kids
+  end.
+Definition wf_view (v : list node) : bool := forallb wf_node v.
